@@ -1569,11 +1569,16 @@ func (g *cnrGen) genPut() cnrOp {
 	r := g.r
 	blob := g.pickBlob()
 	op := cnrOp{Kind: "put", Blob: blob, Sig: g.sig(), Pub: g.pub(), Tok: g.tok(), Signers: g.alphaSigners()}
+	resub := false
+	if re := g.resubmitPut(); re != nil && r.Intn(100) < 15 {
+		op, blob, resub = *re, re.Blob, true
+	}
 	wNamed, wMeta := 35, 18
 	if g.prop == "C05" {
 		wNamed, wMeta = 45, 8
 	}
 	switch x := r.Intn(100); {
+	case resub:
 	case x < wNamed:
 		op.Kind = "putNamed"
 		op.Name, op.Zone = g.pickName()
@@ -1605,6 +1610,65 @@ func (g *cnrGen) genPut() cnrOp {
 		}
 	}
 	return g.fit(op)
+}
+
+// envelope returns a signature / public key / token triple that differs from
+// the given one in at least one component.
+func (g *cnrGen) envelope(sig, pub, tok []byte) ([]byte, []byte, []byte) {
+	for {
+		s, p, t := g.sig(), g.c.pubs[g.r.Intn(2)], g.tok()
+		if len(t) > 5 || len(s) > 64 {
+			continue
+		}
+		if !bytes.Equal(s, sig) || !bytes.Equal(p, pub) || !bytes.Equal(t, tok) {
+			return s, p, t
+		}
+	}
+}
+
+// resubmitEACL: the byte-identical table a live container already has, under a
+// different signature / key / token (or, one time in four, the very same call).
+func (g *cnrGen) resubmitEACL() *cnrOp {
+	var ks []string
+	for k, inf := range g.m.live {
+		if inf.eacl != nil {
+			ks = append(ks, k)
+		}
+	}
+	if len(ks) == 0 {
+		return nil
+	}
+	sort.Strings(ks)
+	e := g.m.live[ks[g.r.Intn(len(ks))]].eacl
+	op := cnrOp{Kind: "setEACL", Blob: e[0], Sig: e[1], Pub: e[2], Tok: e[3], Signers: []int{-1}}
+	if g.r.Intn(4) != 0 {
+		op.Sig, op.Pub, op.Tok = g.envelope(e[1], e[2], e[3])
+	}
+	return &op
+}
+
+// resubmitPut: the blob of a live container again, with a different signature /
+// key / token and any of put, putMeta, putNamed.
+func (g *cnrGen) resubmitPut() *cnrOp {
+	var ks []string
+	for k := range g.m.live {
+		ks = append(ks, k)
+	}
+	if len(ks) == 0 {
+		return nil
+	}
+	sort.Strings(ks)
+	inf := g.m.live[ks[g.r.Intn(len(ks))]]
+	op := cnrOp{Kind: "put", Blob: inf.blob, Signers: []int{-1}}
+	op.Sig, op.Pub, op.Tok = g.envelope(inf.sig, inf.pub, inf.tok)
+	switch g.r.Intn(4) {
+	case 0:
+		op.Kind, op.Meta = "putMeta", g.r.Intn(2) == 0
+	case 1:
+		op.Kind = "putNamed"
+		op.Name, op.Zone = g.pickName()
+	}
+	return &op
 }
 
 func (g *cnrGen) pickCid() []byte {
@@ -1670,6 +1734,10 @@ func (g *cnrGen) next(step int) cnrOp {
 	case 1:
 		op = cnrOp{Kind: "delete", Cid: g.pickCid(), Sig: g.sig(), Tok: g.tok(), Signers: g.alphaSigners()}
 	case 2:
+		if re := g.resubmitEACL(); re != nil && r.Intn(100) < 40 {
+			op = *re
+			break
+		}
 		cid := g.pickCid()
 		e := cnrEACL([]int{0, 3}[r.Intn(2)], cid, byte(r.Intn(3)))
 		if len(cid) != 32 || r.Intn(10) == 0 {
@@ -1838,9 +1906,37 @@ func cnrCorpus(c *cnrEnv) [][]cnrOp {
 		sizes = append(sizes, cnrOp{Kind: "delete", Cid: cidOf(b), Sig: cnrSigB, Tok: cnrTok, Signers: al})
 	}
 	sizes = append(sizes, putB(sized[1])) // replay of a deleted 253-byte container
+	// the same payload again under a different envelope: every field the getters
+	// return follows the last successful call, every successful call is announced
+	T := cnrEACL(3, c.cids[0], 1)
+	eaclOp := func(sig, pub, tok []byte) cnrOp {
+		return cnrOp{Kind: "setEACL", Blob: T, Sig: sig, Pub: pub, Tok: tok, Signers: al}
+	}
+	putE := func(kind string, sig, pub, tok []byte, name string, meta bool) cnrOp {
+		return cnrOp{Kind: kind, Blob: B[0], Sig: sig, Pub: pub, Tok: tok, Name: name, Meta: meta, Signers: al}
+	}
+	envelope := []cnrOp{fee("ContainerFee", 0), fee("ContainerAliasFee", 0),
+		putE("put", cnrSigA, P[0], cnrTok, "", false),
+		eaclOp(cnrSigA, P[1], cnrTok),
+		eaclOp(cnrSigB, P[0], nil),     // identical table, new signature, key and token
+		eaclOp(cnrSigB, P[0], nil),     // the very same call once more: announced again
+		eaclOp(cnrSigB, P[1], nil),     // only the key differs
+		eaclOp(cnrSigB, P[1], cnrTok),  // only the token differs
+		eaclOp(cnrSigA, P[1], cnrTok),  // only the signature differs
+		putE("put", cnrSigB, P[1], nil, "", false), // identical blob, new envelope
+		putE("put", cnrSigB, P[1], nil, "", false), // the very same call
+		putE("putMeta", cnrSigA, P[1], nil, "", true),
+		putE("putMeta", cnrSigA, P[0], cnrTok, "", false), // the meta flag is sticky
+		putE("putNamed", cnrSigB, P[0], cnrTok, "aaa", false),
+		putE("put", cnrSigA, P[1], nil, "", false), // the alias stays
+		eaclOp(cnrSigA, P[0], cnrTok),              // the eACL survived the re-puts; replaced now
+		del(0), del(0), // the second delete is a no-op without notification
+		eaclOp(cnrSigA, P[0], cnrTok), // deleted: not found
+		putE("put", cnrSigB, P[1], nil, "", false)} // replay under another envelope: refused
 	return [][]cnrOp{
 		selfPay,
 		sizes,
+		envelope,
 		{ // F13: a second alias for a live container; delete removes only the last one
 			fee("ContainerFee", 7), fee("ContainerAliasFee", 1), mint(0, 1000), mint(1, 1000),
 			put(0, cnrTok),
@@ -1955,10 +2051,10 @@ func cnrOpString(op cnrOp) string {
 func runContainerFamily(t *testing.T, prop string) {
 	st := NewStats(prop)
 	if prop == "C04" {
-		st.Rule = "histories = 6 corpus witnesses (+2 on a four-key committee in the quick tier) + seeded structured generation over 3 owners + the Alphabet nodes' own accounts as owners, 6+ short container blobs (version-field lengths 0,2,5) and blobs of 252, 253, 254, 255, 256, 300, 1024, 4096 bytes and the largest size a transaction carries, eACL tables / tokens / signatures / name labels at their length boundaries, 3 names x 2 zones, malformed blobs/ids/names, missing witnesses; " +
+		st.Rule = "histories = 7 corpus witnesses (+2 on a four-key committee in the quick tier) + seeded structured generation over 3 owners + the Alphabet nodes' own accounts as owners, 6+ short container blobs (version-field lengths 0,2,5) and blobs of 252, 253, 254, 255, 256, 300, 1024, 4096 bytes and the largest size a transaction carries, eACL tables / tokens / signatures / name labels at their length boundaries, 3 names x 2 zones, malformed blobs/ids/names, missing witnesses; " +
 			"non-trivial = the history contains a successful put, a successful delete and a refused/faulting call; distinct = by the sequence of (operation kind, outcome) pairs"
 	} else {
-		st.Rule = "histories = 6 corpus witnesses (+2 on a four-key committee in the quick tier) + seeded structured generation (fees from {0,1,7,10^9,-1,2^254}, balances steered to fee*N-1, fee*N, fee*N+1, owners that are themselves fee recipients, named and unnamed puts, fee changes between puts); " +
+		st.Rule = "histories = 7 corpus witnesses (+2 on a four-key committee in the quick tier) + seeded structured generation (fees from {0,1,7,10^9,-1,2^254}, balances steered to fee*N-1, fee*N, fee*N+1, owners that are themselves fee recipients, named and unnamed puts, fee changes between puts); " +
 			"non-trivial = the history contains a successful paying put (fee*N > 0) and a put refused or faulting; distinct = by the sequence of (operation kind, outcome, fee*N) triples"
 	}
 	q := newCnrCoq()
@@ -2095,7 +2191,7 @@ func runContainerFamily(t *testing.T, prop string) {
 		}
 		if extra > 0 { // quick tier: owner = Alphabet node and the F13 witness on a multi-key committee
 			corpusRun(0, 4)
-			corpusRun(2, 4)
+			corpusRun(3, 4)
 		}
 	}
 	for h := 0; h < nh; h++ {
